@@ -957,3 +957,6 @@ PROPS["C01"]["claim"] += (" Block phase of EVERY GFM member set (tnopanic round 
     "string the block phase returns a store with all lines in range (block_phase_x_line_facts, block_phase_x_tree_consistent, "
     "block_phase_x_guard_is_observer). What separates this from convertgfm_total: two facts about table records in the final store (RecordsClassify; "
     "escaped-pipe positions ascending across tables) - convertl_total_of_records_and_esc is the composition.")
+PROPS["C11"]["claim"] += (" Round 4 of gfmx: inside a line the consultation flush of a declining Linkify leaves the parent's children as one longer flush does "
+    "(consultation_flush_merges); 35 fixed documents at the break / trim / entity / escape proviso were added to the comparison of a real goldmark with a "
+    "nil parser in Linkify's place against the member set alone (clause consultation-flush-changes-output).")
